@@ -1,6 +1,7 @@
 """C08 — oriented-box intersection / IoU (partial claim: formula wiring, absence rule, pre-filter wiring)."""
 from lib import ExprBuilder, path_conditions, result_assignments, orient
 import props.C20 as C20
+from props import C14
 
 EXPLANATION = (
     "Only the clauses of C08 whose truth is visible in the shape of the code are decided; the exactness of the f64 "
@@ -14,7 +15,9 @@ EXPLANATION = (
     "exactly under `cache is none`; (R08.4) the axis-aligned closed form multiplies an x-extent that reads "
     "{left,width} of both boxes with a y-extent that reads {top,height} of both, only when both extents are > 0, else "
     "0; (R08.5) the pre-filter measures the difference of both centres against the sum of BOTH bounding radii and the "
-    "radius reads both half extents under a square root (necessary for 'never rejects an overlapping pair').")
+    "radius reads both half extents under a square root (necessary for 'never rejects an overlapping pair'); (R08.7) the "
+    "inside/outside predicate of the clipper is a sign test (no tolerance); R08.3 also requires that the working copies "
+    "are clones and that Clone never carries the vertex cache (stale polygons after public-field writes).")
 NOT_DECIDED = ["exactness of the clipped area and of the IoU value (f64 geometry)", "symmetry / rigid-motion invariance "
                "as numeric statements", "agreement of the closed form with the general path",
                "soundness of the pre-filter bound as an inequality (only its wiring is decided)"]
@@ -178,6 +181,35 @@ def intersection_rule(ctx, R):
     n += 1
     ctx.check(len(gens) == 2, R, b, 'both-operands-get-vertices', str(len(gens)),
               'expected one gen_vertices() per operand, found %d' % len(gens))
+    # the working copies are clones, and a clone never carries a (possibly stale) cache of the caller's box
+    C14.clone_rule(ctx, R)
+    n += 2
+    return n
+
+
+def clip_predicate_rule(ctx, R):
+    """the inside/outside predicates of the clipper (bool helpers called by sutherland_hodgman_clip) decide by the SIGN
+    of their quantity: they compare with the constant 0 — any tolerance makes disjoint boxes intersect"""
+    from lib import local_callee_bodies, as_cmp
+    n = 0
+    b = ctx.anchor(R, 'utils::clipping::sutherland_hodgman_clip')
+    if b is None:
+        return 0
+    seen = set()
+    for c in b.find_calls():
+        for cb in local_callee_bodies(ctx.F, c):
+            if cb.npath in seen or cb.locals[0] != 'bool':
+                continue
+            seen.add(cb.npath)
+            ctx.read(cb)
+            e = ExprBuilder(cb).place(0, ())
+            cm = as_cmp(e, True)
+            n += 1
+            ok = cm is not None and ((cm[2].kind == 'const' and cm[2].const_value() in ('0.0', '0', '-0.0')) or
+                                     (cm[1].kind == 'const' and cm[1].const_value() in ('0.0', '0', '-0.0')))
+            ctx.check(ok, R, cb, 'clip-predicate-is-a-sign-test:' + cb.npath.rsplit('::', 1)[-1], repr(e)[:120],
+                      'the clipping predicate %s decides by %r: expected a comparison with the constant 0 (a tolerance '
+                      'reports an intersection for boxes that do not overlap)' % (cb.npath, e))
     return n
 
 
@@ -260,7 +292,9 @@ def run(ctx):
     ctx.floor('R08.1', n1, 3)
     ctx.floor('R08.2', n2, 5)
     ctx.rule('R08.3', 'Universal2DBox::intersection: 0 only when too_far; else area of clip(l, r); vertices when cache empty')
-    ctx.floor('R08.3', intersection_rule(ctx, 'R08.3'), 7)
+    ctx.floor('R08.3', intersection_rule(ctx, 'R08.3'), 9)
+    ctx.rule('R08.7', 'clipping predicates are sign tests (comparison with the constant 0)')
+    ctx.floor('R08.7', clip_predicate_rule(ctx, 'R08.7'), 1)
     ctx.rule('R08.4', 'axis-aligned closed form: product of the two extents, only when both are positive')
     ctx.floor('R08.4', closed_form_rule(ctx, 'R08.4'), 3)
     ctx.rule('R08.5', 'pre-filter wiring: both centres, sum of both radii; radius from both half extents')
